@@ -173,7 +173,7 @@ fn rand_tz_string(rng: &mut Rng) -> String {
 
 pub fn run(ctx: &Ctx) -> Report {
     let mut rep = Report::new("C10");
-    rep.rule = "cases = events (file, instant) -> (utoff, isdst, abbreviation, civil fields) and (file, local time) -> found instants recorded from tz-rs and replayed offline against CPython zoneinfo (posix tree) and glibc localtime (posix and right trees) reading the same vendored tzdata 2025b files: every transition -1/0/+1, 300 (thorough: 3000) random instants 1900-2500, far-future instants governed by the footer, every path of the index (1243) is loaded and compared at the first use of each local time type + 3 instants, and searched around its first and its last table transition (whatever their dates), whatever the tier; local times within 3 h of every transition since 1970 (15-minute steps and the exact boundaries); the footer rule's transitions in 2 (quick) / 40 (thorough) random years of 2038-2400 per file, located by bisection, with the instants -1/0/+1 and the local times around them; \
+    rep.rule = "cases = events (file, instant) -> (utoff, isdst, abbreviation, civil fields) and (file, local time) -> found instants recorded from tz-rs and replayed offline against CPython zoneinfo (posix tree) and glibc localtime (posix and right trees) reading the same vendored tzdata 2025b files: every transition -1/0/+1, 300 (thorough: 3000) random instants 1900-2500, far-future instants governed by the footer, every path of the index (1243) is loaded and compared at the first use of each local time type + 3 instants, and searched around its first and its last table transition (whatever their dates), whatever the tier; local times within 3 h of every transition of the table (19th century included) in 15-minute steps and at the exact boundaries; the footer rule's transitions in 2 (quick) / 40 (thorough) random years of 2038-2400 per file, located by bisection, with the instants -1/0/+1 and the local times around them; \
                 plus TZ descriptions (IANA footers and random well-formed ones on the sub-language where glibc is authoritative) x 30 instants against glibc's TZ-environment parser. distinct_nontrivial = distinct events recorded."
         .into();
     let dir = match ctx.opts.get("events") {
@@ -194,7 +194,7 @@ pub fn run(ctx: &Ctx) -> Report {
     let idx = std::fs::read_to_string(format!("{}/zoneinfo/index.tsv", ctx.corpus)).unwrap_or_default();
     let hashes: Vec<(String, String)> = idx.lines().filter_map(|l| l.split_once('\t')).map(|(p, h)| (p.to_string(), h.to_string())).collect();
     let mut files: Vec<(String, usize, String)> = vec![]; // (path, blob index, blob hash)
-    if ctx.quick() {
+    if ctx.scale < 1.0 {
         let mut rng = Rng::for_case(ctx.seed, 10, 0);
         let mut chosen: Vec<usize> = vec![];
         for hc in HARD_CASES {
@@ -271,7 +271,8 @@ pub fn run(ctx: &Ctx) -> Report {
         let mut nfind = 0;
         for &(t, _) in &zs.transitions {
             let x = leaps.switch(t);
-            if x < 0 || x > 8_000_000_000 {
+            // every transition of the table, the 19th-century ones too (interpreted slices: since 1970)
+            if x > 8_000_000_000 || x < if ctx.scale < 1.0 { 0 } else { -12_000_000_000 } {
                 continue;
             }
             let x = x as i64;
